@@ -1,7 +1,12 @@
 // Native replay for C16: the real src/gsl/amplgsl.cc (compiled with the funcadd.h stub and linked with libgsl)
 // registered through funcadd_ASL; calls one binding with given arguments and request mode under ASan/UBSan.
 // usage: c16_replay <function> <mode: 0 value, 1 derivs, 2 derivs+hes> <arg>...       (arg "nan" allowed)
-//   exit 10 = no error message but NaN in the value or in a requested derivative
+//        c16_replay sweep <function> <nargs> [<arg>...]   all three modes over a probe grid of arguments (plus the given point)
+//   exit 10 = no error message but (a) NaN in the value or in a requested derivative, or (b) a GSL function with a status result
+//             (*_e family) returned a failure status to the binding.  For (b) amplgsl.cc is compiled with -include <generated header>
+//             that includes the GSL headers and then wraps every *_e call in vp_status() (same wrapping as in the CBMC harness).
+//   GSL's own error handler is observed too, but only printed: GSL swallows some internal errors and the natural-form
+//   functions hide the status from the binding, which the contracts (GSL arbitrary) do not decide.
 #include <cstdio>
 #include <cstdlib>
 #include <cstring>
@@ -10,6 +15,7 @@
 #include <map>
 #include <string>
 #include <vector>
+#include <gsl/gsl_errno.h>
 #include "funcadd.h"
 extern "C" void funcadd_ASL(AmplExports *ae);
 static std::map<std::string, rfunc> funcs; static std::map<std::string, int> arity;
@@ -17,27 +23,87 @@ static void add(const char *name, rfunc f, int, int nargs, void *, AmplExports *
 static std::vector<void *> blocks;
 static void atreset(AmplExports *, Exitfunc *, void *) {}
 static void *tempmem(TMInfo *, size_t n) { void *p = malloc(n); blocks.push_back(p); return p; }
-int main(int argc, char **argv) {
-  if (argc < 3) return 2;
-  AmplExports ae; memset(&ae, 0, sizeof ae); ae.Addfunc = add; ae.Tempmem = tempmem; ae.SnprintF = snprintf; ae.VsnprintF = vsnprintf; ae.AtReset = atreset;
-  funcadd_ASL(&ae);
-  if (!funcs.count(argv[1])) { printf("unknown function %s\n", argv[1]); return 2; }
-  int mode = atoi(argv[2]); int n = argc - 3;
-  std::vector<double> ra(n), derivs(n, 0.0), hes(n * (n + 1) / 2 + 1, 0.0);
-  for (int i = 0; i < n; ++i) ra[i] = !strcmp(argv[3 + i], "nan") ? NAN : strtod(argv[3 + i], 0);
-  arglist al; memset(&al, 0, sizeof al); al.n = al.nr = n; al.ra = ra.data(); al.AE = &ae; al.funcinfo = argv[1];
+// observes GSL's own error reports; like the handler amplgsl.cc installs (gsl_set_error_handler_off) it does not change the flow
+static int g_gsl_errors; static int g_gsl_errno; static std::string g_gsl_reason;
+static void on_gsl_error(const char *reason, const char *, int, int gsl_errno) {
+  // only "the value cannot be computed" counts; underflow / overflow / accuracy reports still come with the IEEE result (0, inf, approximation)
+  if (gsl_errno != GSL_EDOM && gsl_errno != GSL_EINVAL && gsl_errno != GSL_EFAILED && gsl_errno != GSL_EFAULT && gsl_errno != GSL_ESANITY &&
+      gsl_errno != GSL_EUNIMPL && gsl_errno != GSL_EUNSUP) return;
+  ++g_gsl_errors; g_gsl_errno = gsl_errno; g_gsl_reason = reason ? reason : "";
+}
+static AmplExports ae;
+static int g_status_failed, g_last_status;
+extern "C" int vp_status(int s) { if (s != 0) { g_status_failed = 1; g_last_status = s; } return s; }
+
+// returns 0 ok, 1 violated
+static int call(const char *name, int mode, const std::vector<double> &args, bool verbose) {
+  int n = (int)args.size();
+  std::vector<double> ra(args), derivs(n + 1, 0.0), hes(n * (n + 1) / 2 + 1, 0.0);
+  arglist al; memset(&al, 0, sizeof al); al.n = al.nr = n; al.ra = ra.data(); al.AE = &ae; al.funcinfo = (char *)name;
   if (mode >= 1) al.derivs = derivs.data();
   if (mode >= 2) al.hes = hes.data();
-  double r = funcs[argv[1]](&al);
-  printf("%s -> %g, Errmsg: %s\n", argv[1], r, al.Errmsg ? al.Errmsg : "(none)");
+  g_gsl_errors = 0; g_status_failed = 0;
+  double r = funcs[name](&al);
   int bad = 0;
   if (!al.Errmsg) {
     if (std::isnan(r)) bad = 1;
     if (al.derivs) for (int i = 0; i < n; ++i) if (std::isnan(derivs[i])) bad = 1;
     if (al.hes) for (int i = 0; i < n * (n + 1) / 2; ++i) if (std::isnan(hes[i])) bad = 1;
-    if (bad) printf("VIOLATED: no error reported but a NaN is returned\n");
-    for (int i = 0; al.derivs && i < n; ++i) printf("  d[%d] = %.17g\n", i, derivs[i]);
-    for (int i = 0; al.hes && i < n * (n + 1) / 2; ++i) printf("  h[%d] = %.17g\n", i, hes[i]);
+    if (!bad && g_status_failed) bad = 2;
   }
-  return bad ? 10 : 0;
+  if (verbose || bad) {
+    printf("%s mode %d (", name, mode);
+    for (int i = 0; i < n; ++i) printf("%s%.17g", i ? ", " : "", args[i]);
+    printf(") -> %g, Errmsg: %s\n", r, al.Errmsg ? al.Errmsg : "(none)");
+    if (bad == 1) printf("VIOLATED: no error reported but a NaN is returned\n");
+    if (bad == 2) printf("VIOLATED: a GSL function returned failure status %d (%s) to the binding, which returned %g without an error message\n",
+                         g_last_status, gsl_strerror(g_last_status), r);
+    else if (verbose && g_gsl_errors && !al.Errmsg) printf("note: GSL's error handler was invoked (gsl_errno %d: %s)\n", g_gsl_errno, g_gsl_reason.c_str());
+    if (!al.Errmsg) {
+      for (int i = 0; al.derivs && i < n; ++i) printf("  d[%d] = %.17g\n", i, derivs[i]);
+      for (int i = 0; al.hes && i < n * (n + 1) / 2; ++i) printf("  h[%d] = %.17g\n", i, hes[i]);
+    }
+  }
+  return bad ? 1 : 0;
+}
+
+static double num(const char *s) { return !strcmp(s, "nan") ? NAN : strtod(s, 0); }
+
+int main(int argc, char **argv) {
+  if (argc < 3) return 2;
+  memset(&ae, 0, sizeof ae); ae.Addfunc = add; ae.Tempmem = tempmem; ae.SnprintF = snprintf; ae.VsnprintF = vsnprintf; ae.AtReset = atreset;
+  funcadd_ASL(&ae);
+  gsl_set_error_handler(on_gsl_error);
+  if (!strcmp(argv[1], "sweep")) {
+    if (argc < 4 || !funcs.count(argv[2])) { printf("unknown function\n"); return 2; }
+    const char *name = argv[2]; int n = atoi(argv[3]);
+    if (argc >= 4 + n) {
+      std::vector<double> pt; for (int i = 0; i < n; ++i) pt.push_back(num(argv[4 + i]));
+      for (int mode = 0; mode < 3; ++mode) if (call(name, mode, pt, false)) return 10;
+    }
+    static const double V[] = {0, 1, -1, 0.5, 2, 3, -2, 10, 1e-3, -0.5, 100};
+    const int NV = sizeof V / sizeof *V;
+    long total = 1; bool full = true;
+    for (int i = 0; i < n; ++i) { total *= NV; if (total > 30000) { full = false; break; } }
+    std::vector<double> a(n);
+    if (full) {
+      for (long c = 0; c < total; ++c) {
+        long t = c; for (int i = 0; i < n; ++i) { a[i] = V[t % NV]; t /= NV; }
+        for (int mode = 0; mode < 3; ++mode) if (call(name, mode, a, false)) return 10;
+      }
+    } else {
+      unsigned long long s = 88172645463325252ULL;
+      for (long c = 0; c < 30000; ++c) {
+        for (int i = 0; i < n; ++i) { s ^= s << 13; s ^= s >> 7; s ^= s << 17; a[i] = V[s % NV]; }
+        for (int mode = 0; mode < 3; ++mode) if (call(name, mode, a, false)) return 10;
+      }
+    }
+    printf("sweep of %s: no violation among the probe points\n", name);
+    return 0;
+  }
+  if (!funcs.count(argv[1])) { printf("unknown function %s\n", argv[1]); return 2; }
+  int mode = atoi(argv[2]); int n = argc - 3;
+  std::vector<double> ra(n);
+  for (int i = 0; i < n; ++i) ra[i] = num(argv[3 + i]);
+  return call(argv[1], mode, ra, true) ? 10 : 0;
 }
